@@ -100,3 +100,13 @@ Proof. vm_compute. reflexivity. Qed.
 Lemma w_ultrazip_hugew_fixed :
   match handle_msg (init_state f888 255 16 16) w_ultrazip_hugew with Oob _ => False | _ => True end.
 Proof. vm_compute. exact I. Qed.
+
+(* F31 (known_findings.d/C08.json): the Tight gradient filter stores the first pixel of every row even for a rectangle
+   of width 0; at x = width the last store is one pixel past the framebuffer (reproduced under ASan:
+   corpus/C08/w_tightgrad_w0.script).  Present on the baseline; gone with fix 10 (notes/fix_C08_11.diff). *)
+Definition w_tightgrad_w0 : list tok := fbu1 8 0 0 4 cE_Tight ++ toks [64; 2].
+Lemma w_tightgrad_w0_oob : handle_msg (init_state f888 255 8 4) w_tightgrad_w0 = Oob 79.
+Proof. vm_compute. reflexivity. Qed.
+Lemma w_tightgrad_w0_fixed :
+  match handle_msg (set_fix (init_state f888 255 8 4) 2047) w_tightgrad_w0 with Oob _ => False | _ => True end.
+Proof. vm_compute. exact I. Qed.
